@@ -29,6 +29,7 @@ ItemAt(g) ==
             in1 == [in0 EXCEPT !.cmd.sigtext = ref,
                                !.argv = [k \in DOMAIN in0.argv |-> IF in0.argv[k] = "@SIG@" THEN ref ELSE in0.argv[k]]]
         IN  [i |-> 0, op |-> "cli", fam |-> "session", sid |-> sid, in |-> in1 @@ [rel |-> <<"keccak_of_output", g - 2>>]]
+Histories == 0
 VARIABLE n
 INSTANCE GenBase
 =============================================================================
